@@ -40,8 +40,9 @@ Verdict(rec) ==
             IF \E k \in DOMAIN Sch : ~Valid(Sch[k][1], Sch[k][2]) THEN <<"skip", "invalid-scheme">>
             ELSE IF Len(rec.vals) # Len(Sch) THEN <<"viol", "C01:accept">>
             ELSE IF \E k \in DOMAIN Sch :
-                  \/ rec.vals[k][2] # 1
-                  \/ rec.vals[k][1] # ScoreLin(cnt, Sch[k][1], Sch[k][2])
+                  /\ rec.vals[k][2] # 2          \* 2 = the value exceeds TLC's 32-bit integers: scheme not compared
+                  /\ \/ rec.vals[k][2] # 1
+                     \/ rec.vals[k][1] # ScoreLin(cnt, Sch[k][1], Sch[k][2])
                  THEN <<"viol", "C01:score">>
             ELSE IF rec.hascnt = 1 /\ ~CountersAgree(cnt, rec.s1, rec.s2) THEN <<"drift", "counters">>
             ELSE <<"ok", "score">>
